@@ -95,7 +95,13 @@ class HierDictDocument(DictDocument):
                     # str type instead of bin type)
                     class_name = class_name.decode('utf8')
 
-                doc = doc.get(class_name, None)
+                if message is self.REQUEST and not (class_name in doc) and \
+                                    isinstance(doc, dict) and len(doc) == 1:
+                    # in bare mode the request is keyed by the name of the
+                    # method, which is not the type name of its argument
+                    doc, = doc.values()
+                else:
+                    doc = doc.get(class_name, None)
 
             result_message = self._doc_to_object(ctx, body_class, doc,
                                                                  self.validator)
